@@ -14,4 +14,27 @@ example : ((List.range 5).flatMap fun k => linesOf (partBlobs Fmt.text wfiles k 
     = wfiles.flatMap lines := by decide
 example : (List.range 5).map (fun k => okOf (partBlobs Fmt.text wfiles k 5 1 4 (fun _ => false)))
     = [some [[97, 98, 10, 13], [10, 10]], some [[99, 100, 13]], some [[10, 10], [101, 102, 10]], some [], some []] := by decide
+
+/-! the hypotheses of the C03 theorems are satisfiable: the theorems instantiated on `wfiles`, `n = 5`, a 1-word
+buffer, `kBufferSize = 4` -/
+example (pick : Nat → Nat → Bool) := C03_parts_cover wfiles 5 1 4 (by decide) (by decide) (by decide) (by decide)
+  (by decide) (by decide) pick
+example (pick : Nat → Bool) := C03_part_lines wfiles 5 1 4 (by decide) (by decide) (by decide) (by decide)
+  (by decide) 2 (by decide) pick
+example (pick : Nat → Bool) := C03_no_error wfiles 5 1 4 (by decide) (by decide) (by decide) (by decide)
+  (by decide) 4 (by decide) pick
+/-- (the hypothesis `partBlobs … = .ok bs` holds with `bs = [[97, 98, 10, 13], [10, 10]]`: fourth example above) -/
+example (bs : List Bytes) (h : partBlobs Fmt.text wfiles 0 5 1 4 (fun _ => false) = .ok bs) (i : Nat) (b : Bytes)
+    (hb : bs[i]? = some b) := C03_chunk_ends_at_eol wfiles 5 1 4 (by decide) (by decide) (by decide) (by decide)
+  (by decide) 0 (by decide) (fun _ => false) bs h i b hb
+example (pick pick' : Nat → Bool) := C03_buffer_independent wfiles 5 1 4 (by decide) (by decide) (by decide)
+  (by decide) (by decide) 1000 2097152 (by decide) 2 (by decide) pick pick'
+example := C03_initial_invariant wfiles 5 1 4 (by decide) (by decide) (by decide) (by decide) (by decide) 0
+  (by decide)
+example := C03_boundaries wfiles 5 (by decide) (by decide) (by decide) (by decide)
+/-- `C03_load_terminates`: its hypothesis `TInv` holds of every constructed state (`C03_initial_invariant`) -/
+example : ∃ s, mkSt Fmt.text wfiles 0 5 1 false 4 = .ok s ∧ ∃ r, load Fmt.text s.base s.base.chunk = .ok r := by
+  obtain ⟨s, h, _, hT, _⟩ := C03_initial_invariant wfiles 5 1 4 (by decide) (by decide) (by decide) (by decide)
+    (by decide) 0 (by decide)
+  exact ⟨s, h, C03_load_terminates s.base s.base.chunk hT⟩
 end DmlcModel.Props.C03
